@@ -461,3 +461,55 @@ Definition sany_enabled (s : sstate) : bool :=
           (seq 0 (length (s_ths s))).
 Definition sverdict (s : sstate) : Z :=
   if sall_done s then 0 else if sany_enabled s then 1 else 2.
+
+(* ------------------------------------------------------------------ *)
+(* Part F: the pass-through table "uv wrapper -> pthread function it calls on the same
+   object" (thread.c:126-135, 290-456, 637-725, 769-898; thread-common.c:146-160).
+   Native (non-custom) semaphore, pthread barrier, NDEBUG uv_mutex_init. *)
+Inductive uvfn :=
+| UvMutexInit | UvMutexDestroy | UvMutexLock | UvMutexTrylock | UvMutexUnlock
+| UvRwlockInit | UvRwlockDestroy | UvRwlockRdlock | UvRwlockTryrdlock | UvRwlockRdunlock
+| UvRwlockWrlock | UvRwlockTrywrlock | UvRwlockWrunlock
+| UvSemInit | UvSemDestroy | UvSemPost | UvSemWait | UvSemTrywait
+| UvCondDestroy | UvCondSignal | UvCondBroadcast | UvCondWait | UvCondTimedwait
+| UvOnce | UvKeyCreate | UvKeyDelete | UvKeyGet | UvKeySet
+| UvThreadJoin | UvBarrierInit | UvBarrierWait | UvBarrierDestroy.
+
+Inductive pfn :=
+| PMutexInit | PMutexDestroy | PMutexLock | PMutexTrylock | PMutexUnlock
+| PRwInit | PRwDestroy | PRwRdlock | PRwTryrdlock | PRwWrlock | PRwTrywrlock | PRwUnlock
+| PSemInit | PSemDestroy | PSemPost | PSemWait | PSemTrywait
+| PCondDestroy | PCondSignal | PCondBroadcast | PCondWait | PCondTimedwait
+| POnce | PKeyCreate | PKeyDelete | PGetspecific | PSetspecific
+| PJoin | PBarrierInit | PBarrierWait | PBarrierDestroy.
+
+Definition passthrough (f : uvfn) : pfn :=
+  match f with
+  | UvMutexInit => PMutexInit | UvMutexDestroy => PMutexDestroy | UvMutexLock => PMutexLock
+  | UvMutexTrylock => PMutexTrylock | UvMutexUnlock => PMutexUnlock
+  | UvRwlockInit => PRwInit | UvRwlockDestroy => PRwDestroy
+  | UvRwlockRdlock => PRwRdlock | UvRwlockTryrdlock => PRwTryrdlock | UvRwlockRdunlock => PRwUnlock
+  | UvRwlockWrlock => PRwWrlock | UvRwlockTrywrlock => PRwTrywrlock | UvRwlockWrunlock => PRwUnlock
+  | UvSemInit => PSemInit | UvSemDestroy => PSemDestroy | UvSemPost => PSemPost
+  | UvSemWait => PSemWait | UvSemTrywait => PSemTrywait
+  | UvCondDestroy => PCondDestroy | UvCondSignal => PCondSignal | UvCondBroadcast => PCondBroadcast
+  | UvCondWait => PCondWait | UvCondTimedwait => PCondTimedwait
+  | UvOnce => POnce | UvKeyCreate => PKeyCreate | UvKeyDelete => PKeyDelete
+  | UvKeyGet => PGetspecific | UvKeySet => PSetspecific
+  | UvThreadJoin => PJoin
+  | UvBarrierInit => PBarrierInit | UvBarrierWait => PBarrierWait | UvBarrierDestroy => PBarrierDestroy
+  end.
+
+Definition all_uvfn : list uvfn :=
+  [UvMutexInit; UvMutexDestroy; UvMutexLock; UvMutexTrylock; UvMutexUnlock;
+   UvRwlockInit; UvRwlockDestroy; UvRwlockRdlock; UvRwlockTryrdlock; UvRwlockRdunlock;
+   UvRwlockWrlock; UvRwlockTrywrlock; UvRwlockWrunlock;
+   UvSemInit; UvSemDestroy; UvSemPost; UvSemWait; UvSemTrywait;
+   UvCondDestroy; UvCondSignal; UvCondBroadcast; UvCondWait; UvCondTimedwait;
+   UvOnce; UvKeyCreate; UvKeyDelete; UvKeyGet; UvKeySet;
+   UvThreadJoin; UvBarrierInit; UvBarrierWait; UvBarrierDestroy].
+
+(* pthread calls a wrapper makes on libuv-internal objects before the mapped call:
+   uv_sem_init runs uv_once(&glibc_version_check_once, ...) first (thread.c:685-687) *)
+Definition passthrough_pre (f : uvfn) : list pfn :=
+  match f with UvSemInit => [POnce] | _ => [] end.
